@@ -2,7 +2,9 @@
 """Apply a seeded patch to /repo, run the given checks (quick tier), undo the patch.
 usage: seedtest.py <patch.diff> <ID> [<ID> ...]      prints one line per check: ID exit-status VIOLATION lines"""
 import subprocess, sys, os, json
-patch, ids = sys.argv[1], sys.argv[2:]
+args = [a for a in sys.argv[1:] if a != "--dev"]
+DEV = "--dev" in sys.argv
+patch, ids = args[0], args[1:]
 V = os.path.dirname(os.path.dirname(os.path.abspath(__file__)))
 def sh(c):
     return subprocess.run(c, shell=True, stdout=subprocess.PIPE, stderr=subprocess.STDOUT).stdout.decode()
@@ -15,8 +17,13 @@ if r.returncode:
 res = {}
 try:
     for i in ids:
-        p = subprocess.run("cd %s && timeout 3000 ./check %s quick" % (V, i), shell=True, stdout=subprocess.PIPE, stderr=subprocess.STDOUT)
+        cmd = "cd %s && timeout 3000 python3 tools/dev.py %s quick" % (V, i) if DEV else "cd %s && timeout 3000 ./check %s quick" % (V, i)
+        p = subprocess.run(cmd, shell=True, stdout=subprocess.PIPE, stderr=subprocess.STDOUT)
         out = p.stdout.decode()
+        if DEV:
+            vl = [l[:400] for l in out.split("\n") if l.startswith("VIOLATION")]
+            print(i, "violations:", len(vl), vl[:2]); sys.stdout.flush()
+            continue
         lines = [l for l in out.split("\n") if l.startswith("VIOLATION") or l.startswith("KNOWN")]
         what = []
         for l in lines[:2]:
